@@ -625,6 +625,7 @@ type retainedParse struct {
 }
 
 var retained []retainedParse
+var sinceRetain int // stream evaluations since the retained parse was replaced
 
 func checkRetained() string {
 	for _, rp := range retained {
@@ -702,7 +703,9 @@ func evaluate(s *Scenario, st *runStats) (fail *Failure) {
 					fail = &Failure{Check: id, Observed: msg}
 				}
 			}
-			if len(s.Doc) <= 8192 && (evalSeq%3 == 0 || len(retained) == 0) {
+			sinceRetain++
+			if len(s.Doc) <= 8192 && (sinceRetain >= 3 || len(retained) == 0) {
+				sinceRetain = 0
 				// one parse in three is kept (and watched during the next three)
 				retain(obs.Blocks, fmt.Sprintf("streaming, %d bytes, seed %d run %d", len(s.Doc), s.Seed, s.Run))
 			}
